@@ -168,7 +168,7 @@ Definition apply_call (w : fs) (c : call) : fs * reply :=
   | CTruncate n _ =>
       match files w n with None => (w, RErr ENOENT) | Some _ => (w, ROk) end
   | CFsyncDir => (w, ROk)
-  | CMkdirDir => (w, ROk)
+  | CMkdirDir => (w, RErr EEXIST)                               (* the directory exists *)
   | CReadDir => (w, RDir (fun n => match files w n with Some _ => true | None => false end))
   | CReadFile n =>
       match files w n with None => (w, RErr ENOENT) | Some c => (w, RIno c) end
@@ -331,9 +331,14 @@ Fixpoint chain_from (d : dname -> option disk) (fuel : nat) (cur : option dname)
       end
   end.
 
-(** types.MaxChainLength (default maximumChainLength = 1024), and whether encodeToFile tests the
-    encoder's error ([fixed = false]: the code as it is, see [encode_to_file]). *)
-Record cfg := mkcfg { maxlen : nat; fixed : bool }.
+(** types.MaxChainLength (default maximumChainLength = 1024), and which of the proposed repairs the
+    code has (all [false]: the code as it is):
+    - [fixed]      encodeToFile tests the encoder's error [lastErr] instead of [err]      (F5)
+    - [fix_dup]    createDisk refuses a snapshot name that is already in diskData          (F9)
+    - [fix_rev]    revertDisk refuses a target that is not a chain snapshot                (F10)
+    - [fix_commit] createDisk keeps the new head when only the directory sync after the
+                   rename of volume.meta failed                                            (F11) *)
+Record cfg := mkcfg { maxlen : nat; fixed : bool; fix_dup : bool; fix_rev : bool; fix_commit : bool }.
 
 Definition chain_fuel (g : cfg) : nat := S (S (maxlen g)).
 Definition mchain (g : cfg) (m : mem) : option (list dname) :=
@@ -455,6 +460,8 @@ Definition create_disk (g : cfg) (m : mem) (s : N) (user : bool) (cr : N) : prog
   if Nat.ltb (maxlen g) (S (S (length (m_active m)))) then Ret (m, Refused) else   (* len(activeDiskData)+1 > max *)
   let old := i_head (m_info m) in
   let snap := match old with None => None | Some _ => Some (Snap s) end in
+  if fix_dup g && match snap with Some sn => match m_disks m sn with Some _ => true | None => false end | None => false end
+  then Ret (m, Refused) else                                  (* repair F9: "snapshot already exists" *)
   t_ <- create_new_head g m old snap cr ;;
   let '(nhn, nd, e1) := t_ in
   if negb (is_ok e1) then
@@ -493,7 +500,19 @@ Definition create_disk (g : cfg) (m : mem) (s : N) (user : bool) (cr : N) : prog
     let mc := set_active mb (m_active mb ++ [nh]) in
     let info' := set_head_info (m_info mc) (Some nh) true snap (d_rev nd) in
     e5 <- encode_to_file g (IVol info') Vol ;;
-    if negb (is_ok e5) then cleanup mc e5 else
+    if negb (is_ok e5) then
+      (if fix_commit g then
+         (* repair F11: volume.meta may already name the new head (only the directory sync failed) *)
+         Do (CReadFile Vol) (fun rv =>
+         match rv with
+         | RIno (IVol iv) =>
+             if odname_eqb (i_head iv) (Some nh)
+             then _ <- rm_disk old ;; Ret (set_info mc info', e5)
+             else cleanup mc e5
+         | _ => cleanup mc e5
+         end)
+       else cleanup mc e5)
+    else
     let md := set_info mc info' in
     _ <- rm_disk old ;;                                       (* deferred, done = true; its error is only logged *)
     Ret (md, Ok)
@@ -693,7 +712,9 @@ Definition open_live_chain (g : cfg) (m : mem) : prog (mem * res) :=
 Definition empty_info (size : N) : info := mkinfo size None false false None None 0.
 
 Definition construct (g : cfg) (size : N) (now : N) : prog (option mem * res) :=
-  Do CMkdirDir (fun _ =>
+  Do CMkdirDir (fun rm =>
+  if match rm with RErr EEXIST => false | RErr _ => true | _ => false end
+  then Ret (None, Failed) else                                  (* err != nil && !os.IsExist(err) *)
   oc <- init_revision_counter ;;
   match oc with
   | None => Ret (None, Failed)
@@ -722,6 +743,9 @@ Definition construct (g : cfg) (size : N) (now : N) : prog (option mem * res) :=
 
 (** replica.go: revertDisk (+ Reload) *)
 Definition revert_disk (g : cfg) (m : mem) (parent : dname) (cr : N) : prog (mem * res) :=
+  if fix_rev g && (match m_disks m parent with Some _ => false | None => true end
+                   || odname_eqb (Some parent) (i_head (m_info m)))
+  then Ret (m, Refused) else                                  (* repair F10: "not a snapshot in the chain" *)
   Do (CStat (Img parent)) (fun rs =>
   if is_err rs then Ret (m, Refused) else
   let old := i_head (m_info m) in
@@ -815,7 +839,8 @@ Inductive op :=
 | ORevert (d : dname) (cr : N)
 | OResize (sz : N)
 | OCheckpoint (c : option dname)
-| ORebuilding (b : bool).
+| ORebuilding (b : bool)
+| OCrashIn (k : nat) (o : op).       (* the process dies inside operation [o], after [k] of its calls *)
 
 (** Server.Status on an open replica *)
 Inductive rstate := SOpen | SDirty | SRebuilding.
@@ -865,6 +890,7 @@ Definition op_prog (g : cfg) (om : option mem) (o : op) : prog (option mem * res
       let '(m1, e) := t_ in
       if is_ok e then Ret (None, Ok, O) else Ret (Some m1, Failed, O)
   | OCrash, _ => Ret (None, Ok, O)
+  | OCrashIn _ _, _ => Ret (None, Ok, O)                       (* see [step] *)
   | _, None => Ret (None, Refused, O)                          (* s.r == nil *)
   | OSetMode mo, Some m =>
       match mo with
@@ -895,9 +921,14 @@ Definition result_of (r : res) : result :=
 
 (** one operation, no faults *)
 Definition step (g : cfg) (s : st) (o : op) : st * result * nat :=
-  match run (op_prog g (s_mem s) o) (s_fs s) with
-  | (w, _, Done (om, e, n)) => (mkst w om, result_of e, n)
-  | (w, _, _) => (mkst w None, ResDied, O)
+  match o with
+  | OCrashIn k o' =>
+      let '(w, _, _) := exec (op_prog g (s_mem s) o') (s_fs s) 0 (Some k) None in (mkst w None, ResDied, O)
+  | _ =>
+      match run (op_prog g (s_mem s) o) (s_fs s) with
+      | (w, _, Done (om, e, n)) => (mkst w om, result_of e, n)
+      | (w, _, _) => (mkst w None, ResDied, O)
+      end
   end.
 
 Definition empty_fs : fs := mkfs (fun _ => None) 1.
